@@ -380,6 +380,30 @@ def check_seq(case, ctx: Ctx):
     for n, cs in ext.channel_samples.items():
         if cs.duration != T + 13:
             ctx.fail(C, "length:extended", f"{n}: {cs.duration} != {T + 13}")
+        # asking for more time only appends: what the plain call returns is the beginning of
+        # what the extended call returns (also for channels with EOM blocks, whose blocks,
+        # buffers and ordinary parts are filtered separately and stitched with masks)
+        short = mod.channel_samples[n]
+        cv = view.ch.get(n)
+        # (amplitude only: the detuning is filtered with its ends held, and what the tree does
+        #  with the held ends where the array stops is not part of the statement)
+        for key in ("amp",):
+            a = np.asarray(getattr(short, key).as_array(), dtype=float)
+            b = np.asarray(getattr(cs, key).as_array(), dtype=float)[:len(a)]
+            # (one rise time at each end left out: that is where the wrap-around lands)
+            r_ = int(cv.obj.rise_time) if cv is not None and cv.obj.mod_bandwidth else 0
+            if r_ and len(a) > 2 * r_:
+                a, b = a[r_:-r_], b[r_:-r_]
+            # (the tree's filter wraps around the ends of what it is given, so the two calls differ
+            #  slightly near t=0: 2 % of the peak allowed, as for keep_ends in the filter clause)
+            pk = float(np.max(np.abs(np.asarray(getattr(plain.channel_samples[n], key).as_array(), dtype=float)))) \
+                if plain.channel_samples[n].duration else 0.0
+            if a.shape == b.shape and a.size and np.max(np.abs(a - b)) > 0.01 + 0.02 * pk:
+                i = int(np.argmax(np.abs(a - b)))
+                ctx.fail(C, f"modulated_samples_differ_from_extended_sampling:{key}:{'eom' if cv is not None and cv.blocks else 'std'}",
+                         f"{n}: {key}[{i}] = {a[i]:.6g} with sample(modulation=True), {b[i]:.6g} with an extended "
+                         f"duration (arrays of {len(a)} samples, last pulse ends at "
+                         f"{cv.last_pulse()[2] if cv is not None and cv.last_pulse() else None})")
 
 
 def profile_fall(tier):
